@@ -18,6 +18,9 @@ import (
 
 var dateSeps = []string{"", ".", "/", "-"}
 
+// datePads: white space around a date field
+var datePads = [][2]string{{" ", ""}, {"", " "}, {" ", " "}, {"\t", "\t"}, {"  ", ""}}
+
 func c12Cents(tier string, yr int, r *Rng) []int {
 	// century splits for which a two-digit year decodes to 1900+yr
 	yy := yr % 100
@@ -74,6 +77,15 @@ func init() {
 							if back != text {
 								res.violate("C12", "number_to_text", fmt.Sprintf("format %s split %d: %q -> %d -> %q", dateFormatNames[fi], cent, text, num, back), nil)
 							}
+							// the same text with blanks / tabs around it, as it arrives from a comma-separated input file: the same day
+							for _, pad := range datePads {
+								pdoy, pnum := conv(pad[0] + text + pad[1])
+								res.Evals++
+								if pnum != wantNum || pdoy != wantDOY {
+									res.violate("C12", "padded_text_to_number", fmt.Sprintf("format %s split %d: %q -> day number %d, day of year %d; calendar says %d, %d", dateFormatNames[fi], cent, pad[0]+text+pad[1], pnum, pdoy, wantNum, wantDOY), nil)
+									break
+								}
+							}
 							if sep == "" {
 								if prevNum >= 0 && num != prevNum+1 {
 									res.violate("C12", "not_consecutive", fmt.Sprintf("format %s: %q has day number %d but the day before had %d", dateFormatNames[fi], text, num, prevNum), nil)
@@ -121,7 +133,7 @@ func init() {
 		rs := runFnSharded("C12", tier, seed, fnShards["C12"], 1200)
 		cases, inc := fnToCases("C12", seed, rs, func(r *FnResult) string { return "crash:date_conversion" })
 		spec := checkSpec{Prop: "C12", Level: "exploration",
-			Rule:   "every calendar date 1901-01-01..2099-12-31 x 4 date formats x separators {none . / -} x century splits that keep a two-digit year unambiguous (quick: lowest, highest and three random admissible splits per year; thorough: every admissible split 0..100) through the real DateConverter / KalenderConverter / KalenderDate, compared with Go's time package; evaluations = text->number conversions, distinct_nontrivial = distinct calendar dates enumerated (all of them are leap-year / month-boundary relevant by construction of the oracle)",
+			Rule:   "every calendar date 1901-01-01..2099-12-31 x 4 date formats x separators {none . / -} x century splits that keep a two-digit year unambiguous (quick: lowest, highest and three random admissible splits per year; thorough: every admissible split 0..100) through the real DateConverter / KalenderConverter / KalenderDate (each text also with blanks / tabs around it, as a comma-separated file delivers it), compared with Go's time package; evaluations = text->number conversions, distinct_nontrivial = distinct calendar dates enumerated (all of them are leap-year / month-boundary relevant by construction of the oracle)",
 			Floors: []string{"years", "dates", "leap_years"}, FloorMin: map[string]int64{"years": 199, "dates": 72683, "leap_years": 49}}
 		extra := map[string]interface{}{"exhaustive": true, "explanation": "the date range of the property is enumerated completely (72,684 dates by the calendar oracle: 199 years x 365 + 49 leap days) in both tiers; tiers differ only in the number of century splits tried for the short formats"}
 		return finishCheck(spec, tier, seed, cases, inc, t0, extra)
